@@ -1108,6 +1108,10 @@ def unit_response(ccn, mode, enc=False):
     contract = ProcessContract(L0["primitives"], min_size=min_size)
     stubs = walker_stubs(contract)
     path = base_path()[:1]
+    if ccn is None:
+        # the caller chooses where the decoded value sits (root_path): an error about the command code names that place
+        from tpmstream.common.path import Path, PathNode
+        path = Path((PathNode("outer"), PathNode("msg", 3)))
     strict = mode == "strict"
     fields = L0["frames"]["Response"]["fields"]
     SESS = int(TPM_ST.SESSIONS._value)
@@ -1153,7 +1157,7 @@ def unit_response(ccn, mode, enc=False):
                         # the layout is unknowable: a value error about the command code, in both modes
                         return out(("raise-class", "ValueConstraintViolatedError"))
                     if ccn is None:
-                        return out(("raise-class", "ValueConstraintViolatedError", {"tpm_type": reg["TPM_CC"], "valid_values": ("values", (reg["TPM_CC"],)), "value": typed_int(cc)}))
+                        return out(("raise-class", "ValueConstraintViolatedError", {"constraint_path": path, "tpm_type": reg["TPM_CC"], "valid_values": ("values", (reg["TPM_CC"],)), "value": typed_int(cc)}))
                     want["type"] = areas[("rsp_handles" if name == "handles" else "rsp_params", ccn)]
                 else:
                     want["type"] = f["type"]
